@@ -1,0 +1,12 @@
+#pragma once
+
+/*
+ * Verification hook: named anchors between a loop header and its body.
+ * In normal builds they expand to nothing; proof tooling defines
+ * LIBMODULE_VERIF and supplies M_VERIF_LOOPSPEC_<name> (loop contracts).
+ */
+#ifdef LIBMODULE_VERIF
+    #define M_VERIF_LOOP(name) M_VERIF_LOOPSPEC_##name
+#else
+    #define M_VERIF_LOOP(name)
+#endif
